@@ -71,6 +71,11 @@ func rewrites() []textRewrite {
 		{"go/store/nbs/journal_writer.go", `(?m)^\tjournalMaybeSyncThreshold = 64 \* 1024 \* 1024$`, "\tjournalMaybeSyncThresholdDsimConst = 64 * 1024 * 1024", 1},
 		{"go/store/nbs/journal_writer.go", `(?m)^var \(\n\tjournalAddr = `, "var journalMaybeSyncThreshold uint64 = journalMaybeSyncThresholdDsimConst\n\nvar (\n\tjournalAddr = ", 1},
 		{"go/store/nbs/journal_writer.go", `wr\.maxNovel = journalIndexDefaultMaxNovel`, "wr.maxNovel = DsimJournalMaxNovel", 1},
+		// scheduling points inside the auto-increment tracker's read-modify-write, and a keyed mutex
+		// whose waiters park instead of blocking (C28, sub-statement interleaving)
+		{"go/libraries/doltcore/sqle/dsess/mutexmap/mutexmap.go", `(?m)^\tkeyedMutex\.mu\.Lock\(\)$`, "\tdsimLock(&keyedMutex.mu)", 1},
+		{"go/libraries/doltcore/sqle/dsess/sequence_tracker.go", `(?m)^(\tcurrState, ok := loadSequenceState\(a\.sequences, relationName\)\n\tif !ok \{\n\t\t// Missing tracker state)`, "\tdsimSeqYield(\"seq.before-load\")\n$1", 1},
+		{"go/libraries/doltcore/sqle/dsess/sequence_tracker.go", `(?m)^(\t+)(a\.sequences\.Store\(relationName, (?:nextState|givenState)\))$`, "${1}dsimSeqYield(\"seq.before-store\")\n${1}${2}", 2},
 		// the puller's table-file size: one transfer becomes many files when a run lowers it
 		{"go/libraries/doltcore/doltdb/doltdb.go", `defaultTargetFileSize, srcCS`, "DsimPullTargetFileSize, srcCS", 1},
 	}
